@@ -155,6 +155,22 @@ _IMPORT_FEATURE_FIRST = lambda x: isinstance(x, tuple) and len(x) == 4 and x[0] 
 _NOT_FUNCTIONAL = lambda x: isinstance(x, tuple) and len(x) == 2 and x[0] == 'not' and isinstance(x[1], tuple) and x[1][0] == 'pclass' and x[1][2] is not None  # noqa: E731
 
 
+def _calc_slash(c):
+    return isinstance(c, tuple) and len(c) == 2 and c[0] == 'calc' and '/' in [o for o in c[1] if isinstance(o, str)]
+
+
+def _VALUE_WITH_LATER_CALC_SLASH(x):
+    """a value (tuple of (sep, component)) in which a calc() with a '/' operator is not the first component"""
+    return (isinstance(x, tuple) and len(x) > 1 and all(isinstance(i, tuple) and len(i) == 2 and (i[0] is None or i[0] in (' ', ',', '/')) for i in x)
+            and x[0][0] is None and any(_calc_slash(c) for _, c in x[1:]))
+
+
+def _fix_calc_slash(x):
+    if _VALUE_WITH_LATER_CALC_SLASH(x):
+        return tuple((sep, ('calc', tuple('*' if o == '/' else o for o in c[1])) if (k > 0 and _calc_slash(c)) else c) for k, (sep, c) in enumerate(x))
+    return None
+
+
 def _fix_fnslash(x):
     if _FNSLASH(x):
         return ('function', x[1], tuple(((',' if sep == '/' else sep), _map(c, _fix_fnslash)) for sep, c in x[2]))
@@ -201,6 +217,11 @@ KNOWN = [
      lambda a, sp: sp.ws in ('alt0', 'alt1', 'mix', 'tab', 'lf', 'crlf', 'ff') and 'calc-operator' not in sp.ws_plain
      and _has(a, lambda x: _is('calc', 2)(x) and any(o in ('*', '/') for o in x[1] if isinstance(o, str))),
      lambda a, sp: (a, dataclasses.replace(sp, ws_plain=sp.ws_plain + ('calc-operator',)))),
+    # the same defect reached another way: after a space-separated component the value parser itself removes the white space before a '/'
+    # (prodparser._SorTokens), also inside the following calc( 1em / 2) -> 'calc( 1em/ 2)'
+    ('C02-calc-operator-space', None,
+     lambda a, sp: sp.ws != 'none' and _has(a, _VALUE_WITH_LATER_CALC_SLASH),
+     lambda a, sp: (_map(a, _fix_calc_slash), sp)),
     ('C02-nocomments-double-space', (CL_NOCOMMENTS,),
      lambda a, sp: _comment_parts(sp, ('before-operator',)) and sp.ws != 'none',
      lambda a, sp: (a, _drop(sp, 'comment_parts', 'before-operator'))),
@@ -258,7 +279,7 @@ def attribute(a, sp, fails):
 
 # sheets that exist to combine two constructs get the core spellings; the unit sheets (one construct) get every restricted variation too
 _PAIR_GROUPS = ('rules2', 'rules3', 'decl2', 'selectorlist', 'import-media')
-_PAIR_LABELS = ('value/pair', 'value/pairx', 'value/triple', 'selector/combine', 'selector/compound', 'selector/typesel+simple', 'media/mq2')
+_PAIR_LABELS = ('value/pair', 'value/pairx', 'value/triple', 'value/second', 'value/first', 'selector/combine', 'selector/compound', 'selector/typesel+simple', 'media/mq2')
 
 
 def _level(label):
